@@ -5,6 +5,7 @@ package main
 import (
 	"fmt"
 	"go/types"
+	"os"
 	"strings"
 
 	"golang.org/x/tools/go/ssa"
@@ -54,11 +55,16 @@ func hasMethods(t types.Type, names ...string) bool {
 }
 
 func analyseClient(c *Ctx, typeName string, serial bool) *clientInfo {
+	return analyseClientIn(c, "", typeName, serial)
+}
+
+// analyseClientIn: the client type typeName of package pkgRel (the controls use their own package).
+func analyseClientIn(c *Ctx, pkgRel, typeName string, serial bool) *clientInfo {
 	ci := &clientInfo{typeName: typeName, serial: serial, transport: -1, hooks: -1, asErr: -1, parse: -1, mutex: -1, maxADU: maxTCPADU}
 	if serial {
 		ci.maxADU = maxRTUADU
 	}
-	sp := c.pkg("")
+	sp := c.pkg(pkgRel)
 	tm := sp.Type(typeName)
 	if tm == nil {
 		fatal("unresolved anchor: type %s", typeName)
@@ -93,8 +99,8 @@ func analyseClient(c *Ctx, typeName string, serial bool) *clientInfo {
 	if ci.transport < 0 || ci.hooks < 0 || ci.asErr < 0 || ci.parse < 0 || ci.mutex < 0 {
 		fatal("unresolved anchor: %s lacks a transport/hooks/asProtocolError/parseResponse/mutex field", typeName)
 	}
-	ci.Do = c.fnMust("", "*"+typeName+".Do")
-	ci.do = c.fnMust("", "*"+typeName+".do")
+	ci.Do = c.fnMust(pkgRel, "*"+typeName+".Do")
+	ci.do = c.fnMust(pkgRel, "*"+typeName+".do")
 	ci.an = &Analysis{ctx: c, u: newUniverse(), top: ci.Do, logCalls: true}
 	ci.top = ci.an.newFrame(ci.Do, nil, nil)
 	ci.top.run(dnfTrue())
@@ -286,3 +292,52 @@ func (ci *clientInfo) callClass(cr *CallRec) string {
 func fmtAff(a Aff) string { return a.String() }
 
 var _ = fmt.Sprintf
+
+// clientControls runs the read-loop rule sets on the miniature clients of the controls module:
+// Good must stay silent, Bad must fire the named signature of every rule family.
+func clientControls(c *Ctx, r *Report, prop string) {
+	good := analyseClientIn(c, "cclient", "Good", false)
+	bad := analyseClientIn(c, "cclient", "Bad", false)
+	all := func(ci *clientInfo) map[string]bool {
+		out := map[string]bool{}
+		for k := range c07Loop(c, nil, ci, true) {
+			out["C07/"+k] = true
+		}
+		for k := range c08Client(c, nil, ci, true) {
+			out["C08/"+k] = true
+		}
+		for k := range c19Client(c, nil, ci, true) {
+			out["C19/"+k] = true
+		}
+		return out
+	}
+	g, b := all(good), all(bad)
+	if os.Getenv("MBDBG") != "" {
+		fmt.Fprintf(os.Stderr, "client controls good=%v\nbad=%v\n", g, b)
+	}
+	r.controls[prop+"/client-negative-control-silent"] = len(g) == 0
+	want := map[string][]string{
+		"C07": {"C07/R7.3:recogniser-arg", "C07/R7.2:result-copy"},
+		"C08": {"C08/R8.1:timer-in-loop", "C08/R8.4:oversize-condition", "C08/R8.3:class:raw-transport:SetWriteDeadline"},
+		"C19": {"C19/R19.1:beforewrite-arg", "C19/R19.2:afterread-chunk", "C19/R19.3:beforeparse-on-error"},
+		"C12": {"C07/R7.3:recogniser-arg"},
+		"C14": {"C07/R7.2:result-copy"},
+		"C02": {"C07/R7.3:recogniser-arg"},
+	}
+	for _, k := range want[prop] {
+		r.controls[prop+"/"+k] = b[k]
+	}
+}
+
+func init() {
+	for _, p := range []string{"C07", "C08", "C12", "C14", "C19"} {
+		prop := p
+		prev := controls[prop]
+		controls[prop] = func(c *Ctx, r *Report) {
+			if prev != nil {
+				prev(c, r)
+			}
+			clientControls(c, r, prop)
+		}
+	}
+}
